@@ -231,6 +231,52 @@ func (s *Set) M__xor__(other Object) (Object, error) {
 	return ret, nil
 }
 
+// In place operators: every alias of the set sees the result
+
+// replaces the contents of s by those of res, an object made by one
+// of the binary operators
+func (s *Set) become(res Object, err error) (Object, error) {
+	if err != nil {
+		return nil, err
+	}
+	s.items = res.(*Set).items
+	return s, nil
+}
+
+func (s *Set) M__iand__(other Object) (Object, error) {
+	return s.become(s.M__and__(other))
+}
+
+func (s *Set) M__ior__(other Object) (Object, error) {
+	return s.become(s.M__or__(other))
+}
+
+func (s *Set) M__isub__(other Object) (Object, error) {
+	return s.become(s.M__sub__(other))
+}
+
+func (s *Set) M__ixor__(other Object) (Object, error) {
+	return s.become(s.M__xor__(other))
+}
+
+// A frozenset is immutable: its in place operators make a new object
+
+func (s *FrozenSet) M__iand__(other Object) (Object, error) {
+	return s.M__and__(other)
+}
+
+func (s *FrozenSet) M__ior__(other Object) (Object, error) {
+	return s.M__or__(other)
+}
+
+func (s *FrozenSet) M__isub__(other Object) (Object, error) {
+	return s.M__sub__(other)
+}
+
+func (s *FrozenSet) M__ixor__(other Object) (Object, error) {
+	return s.M__xor__(other)
+}
+
 // Check interface is satisfied
 var _ I__len__ = (*Set)(nil)
 var _ I__bool__ = (*Set)(nil)
